@@ -82,7 +82,8 @@ namespace photon
             ctrl.cvar.notify_all();
         } else if (ctrl.joinable) {
             ctrl.joining = true;
-            ctrl.cvar.wait(ctrl.m_mtx);
+            while (ctrl.joining)        // until a joiner arrives, not a stray interrupt
+                ctrl.cvar.wait(ctrl.m_mtx);
         }
         ctrl.joinable = false;
         ctrl.joining = false;
@@ -120,10 +121,12 @@ namespace photon
 
         auto ret = !pCtrl->joining;
         if (pCtrl->joining) {
+            pCtrl->joining = false;
             pCtrl->cvar.notify_one();
         } else {
             pCtrl->joining = true;
-            pCtrl->cvar.wait(pCtrl->m_mtx);
+            while (pCtrl->joining)      // until the work is done, not a stray interrupt
+                pCtrl->cvar.wait(pCtrl->m_mtx);
         }
         return ret;
     }
